@@ -357,6 +357,38 @@ def ref2(P, op, a, b):
     return float_ref(P, op, fa, fb)
 
 
+BASE_FLOAT_CONSTS = [("fin", 1, 0, 0), ("fin", -1, 0, 0), ("fin", 1, 1, 0), ("fin", 1, 1, 1), ("fin", -1, 3, 1), ("fin", 1, 2, 0)]
+FLOAT_OPS = ("Add", "Subtract", "Multiply", "TrueDivide", "Remainder", "FloorDivide", "Eq", "Ne", "And")
+
+
+def bnd_float_consts(P):
+    """spec: BndFloatConsts - the representable integral doubles 2^e-1 .. 2^e+2 around the guard / representation
+    boundaries e in {SHIFT, 2 SHIFT, MANT, MANT+1, LONG-1}, both signs"""
+    mags = sorted({2 ** e + d for e in (P.SHIFT, 2 * P.SHIFT, P.MANT, P.MANT + 1, P.LONG - 1) for d in (-1, 0, 1, 2)})
+    return [("fin", s, m, 0) for m in mags if round_fin(P, 1, m, 0) == ("fin", 1, m, 0) for s in (1, -1)]
+
+
+def float_helper_ops(P):
+    """spec: FloatHelperOps"""
+    return [op for op in FLOAT_OPS if select(P, op, "CObj", "float", ("fin", 1, 1, 0)) == "PyFloatBinop"]
+
+
+def float_sites(P):
+    """spec: the float-constant part of Sites -> {(op, order, constant)}"""
+    out = {(op, order, f) for op in FLOAT_OPS for order in ("ObjC", "CObj") for f in BASE_FLOAT_CONSTS}
+    out |= {(op, order, f) for op in float_helper_ops(P) for order in ("ObjC", "CObj") for f in bnd_float_consts(P)}
+    return out
+
+
+def round_collision(P, site, x):
+    """spec: RoundCollision - int operand unequal to the float constant whose conversion to double equals it"""
+    c = site["cv"]
+    if c[0] != "float" or x[0] != "int" or c[1][0] != "fin" or cmp_exact_eq(x[1], c[1]):
+        return False
+    f = int_to_float(P, x[1])
+    return f is not None and feq(f, c[1])
+
+
 def ref(P, site, x):
     c = site["cv"]
     return ref2(P, site["op"], x, c) if site["order"] == "ObjC" else ref2(P, site["op"], c, x)
@@ -855,6 +887,23 @@ def real_sites(tier):
                 sites.append(make_site(P, op, order, c, ctx="bool"))
         sites.append(make_site(P, "And", "ObjC", c))
         sites.append(make_site(P, "Xor", "CObj", c))
+    # the spec's boundary family of float constants (BndFloatConsts x FloatHelperOps) at the real parameters
+    for f in bnd_float_consts(P):
+        c = float(f[1] * f[2])
+        for op in float_helper_ops(P):
+            new = []
+            if op in CMP:
+                for order in ("ObjC", "CObj"):
+                    new.append(make_site(P, op, order, c))
+                    new.append(make_site(P, op, order, c, ctx="bool"))
+            else:
+                new.append(make_site(P, op, "ObjC", c))
+                new.append(make_site(P, op, "CObj", c))
+                if tier != "quick":
+                    new.append(make_site(P, op, "ObjC", c, inplace=True))
+            for s in new:
+                s["bnd"] = True
+            sites += new
     for c in ann:
         for op in arith + list(CMP):
             sites.append(make_site(P, op, "ObjC", c, shape="pyint"))
@@ -1000,6 +1049,17 @@ def int_grid(rng, tier):
     return sorted(g)
 
 
+def bnd_near_ints(P):
+    """int operands around the boundary float constants: +-(m + d), d = -2..2 (contains the rounding collisions m +- 1)"""
+    return sorted({sg * (f[2] + d) for f in bnd_float_consts(P) for d in (-2, -1, 0, 1, 2) for sg in (1, -1)})
+
+
+def bnd_floats(P):
+    return [float(f[1] * f[2]) for f in bnd_float_consts(P)]
+
+
+BND_OTHER = ("IntSub(2**64 + 1)", "IntSub(5)", "FloatSub(1.5)", "IntOv(3)", "FloatOv(2.5)", "Obj()", "EqList(1)", "None", "'ab'")
+
 FLOATS = [0.0, -0.0, 1.0, -1.0, 0.5, -0.5, 1.5, -1.5, 2.0, 3.0, -2.5, 7.0, 0.1, -0.3, 255.0, 1073741824.0, -1073741824.0, 1073741823.0,
           1073741825.0, 4503599627370496.0, 9007199254740992.0, 9007199254740994.0, 1e16, -1e16, 1e300, -1e300, 5e-324, -5e-324, 2.2250738585072014e-308,
           1.7976931348623157e+308, math.inf, -math.inf, math.nan, 32768.0, 0.75, -3.0, 1e-5]
@@ -1119,6 +1179,11 @@ def validate_rows(cfg, rows):
     {family/path: cells}, {family/path: hazard cells})"""
     P = Params(cfg["SHIFT"], cfg["LONG"], cfg["LLONG"], cfg["CBITS"], cfg["MANT"], cfg["EMAX"])
     diffs, ncells, paths, hazards = [], 0, {}, {}
+    coll = {}
+    fsites = {(r["op"], r["order"], r["c"]) for r in rows if r["ck"] == "float"}
+    want = {(op, order, fmt_f(f)) for op, order, f in float_sites(P)}
+    if fsites != want:
+        diffs.append({"what": "float sites", "only_spec": sorted(fsites - want)[:10], "only_mirror": sorted(want - fsites)[:10]})
     for r in rows:
         cv = parse_const(r["c"])
         fam = select(P, r["op"], r["order"], r["ck"], cv[1], shift_max=P.LLONG - 1)
@@ -1130,6 +1195,12 @@ def validate_rows(cfg, rows):
         if len(xs) != len(r["ref"]):
             diffs.append({"what": "row length", "row": {k: r[k] for k in ("op", "order", "ck", "c", "chunk")}})
             continue
+        nc = sum(1 for x in xs if round_collision(P, site, x))
+        if nc != r["coll"]:
+            diffs.append({"what": "collision cells", "row": {k: r[k] for k in ("op", "order", "ck", "c", "chunk")}, "spec": r["coll"], "mirror": nc})
+        if nc:
+            k = "%s/%s/%s" % (r["op"], r["order"], "neg" if cv[1][1] < 0 else "pos")
+            coll[k] = coll.get(k, 0) + nc
         for x, sr, sf, sp in zip(xs, r["ref"], r["fast"], r["path"]):
             ncells += 1
             sf = sr if sf == "=" else sf
@@ -1144,4 +1215,4 @@ def validate_rows(cfg, rows):
             if (mr, mf, mp) != (sr, sf, sp) and len(diffs) < 50:
                 diffs.append({"what": "cell", "row": {k: r[k] for k in ("op", "order", "ck", "c")}, "x": x,
                               "spec": [sr, sf, sp], "mirror": [mr, mf, mp]})
-    return ncells, diffs, paths, hazards
+    return ncells, diffs, paths, hazards, coll
